@@ -1548,7 +1548,7 @@ def _default_njmax_nnz(mjm: mujoco.MjModel, nconmax: int, njmax: int) -> int:
       jnt_type = mjm.jnt_type[i]
       if jnt_type == mujoco.mjtJoint.mjJNT_BALL:
         total_nnz += 3
-      elif jnt_type in (mujoco.mjtJoint.mjJNT_SLIDE, mujoco.mjtJoint.mjJNT_HINGE):
+      elif jnt_type == mujoco.mjtJoint.mjJNT_SLIDE or jnt_type == mujoco.mjtJoint.mjJNT_HINGE:
         total_nnz += 1
   for i in range(mjm.ntendon):
     if mjm.tendon_limited[i]:
